@@ -671,7 +671,7 @@ func (d *c14Draw) graph() {
 	t, c := d.t, d.c
 	j := c14ValidJournal(t, false)
 	d.accs, d.coms, d.bound = j.Accounts, j.Commodities, true
-	shape := c14Pick(t, "shape", "single", "chain", "deep-chain", "tree", "diamond", "dup", "self", "mutual", "cycle3")
+	shape := c14Pick(t, "shape", "single", "chain", "deep-chain", "tree", "diamond", "dup", "self", "mutual", "cycle3", "wide-nested")
 	if (shape == "self" || shape == "mutual" || shape == "cycle3") && c14ExcludeIncludeCycle {
 		c14Excluded("include-cycle")
 		shape = "chain"
@@ -708,6 +708,16 @@ func (d *c14Draw) graph() {
 			nx := fresh()
 			add(cur, nx)
 			cur = nx
+		}
+	case "wide-nested":
+		// many files that each include another file (a year of month files with their own sub-files):
+		// many parsers are in flight at once and each of them spawns a further one
+		pool = nil
+		n := rapid.IntRange(16, 70).Draw(t, "wideN")
+		for i := 0; i < n; i++ {
+			mid := fresh()
+			add(c.Main, mid)
+			add(mid, fresh())
 		}
 	case "tree":
 		n := rapid.IntRange(2, 7).Draw(t, "treeN")
